@@ -64,3 +64,56 @@ Proof. split; [|exact ex_bulk_get]. vm_compute. intros H. discriminate H. Qed.
 From Aby Require Import Utf8.
 Theorem C14_lossy_ascii_identity : forall bs, forallb (fun b => b <? 128) bs = true -> lossy bs = bs.
 Proof. exact lossy_ascii. Qed.
+
+(** [lossy] against an INDEPENDENT definition of well-formed UTF-8 (Unicode Table 3-7, [Utf8_proofs.wf_utf8]) and the
+    encoder of Unicode scalar values ([encode]: what a Rust [String] holds, what [put_string] stores): *)
+From Aby Require Import Utf8_proofs.
+Theorem C14_lossy_identity_on_well_formed_utf8 : forall bs, wf_utf8 bs -> lossy bs = bs.
+Proof. exact lossy_valid_identity. Qed.
+
+Theorem C14_lossy_result_is_well_formed : forall bs, wf_utf8 (lossy bs).
+Proof. exact lossy_well_formed. Qed.
+
+Theorem C14_lossy_idempotent : forall bs, lossy (lossy bs) = lossy bs.
+Proof. exact lossy_idempotent. Qed.
+
+Theorem C14_rust_strings_are_well_formed : forall s, Forall scalar s -> wf_utf8 (encode s).
+Proof. exact encode_well_formed. Qed.
+
+Theorem C14_string_round_trip : forall s, Forall scalar s -> lossy (encode s) = encode s.
+Proof. exact string_round_trip. Qed.
+
+Theorem C14_encoding_injective : forall c d, scalar c -> scalar d -> encode_char c = encode_char d -> c = d.
+Proof. exact encode_char_inj. Qed.
+
+Theorem C14_lossy_keeps_a_valid_prefix : forall a b, wf_utf8 a -> lossy (a ++ b) = a ++ lossy b.
+Proof. exact lossy_app_valid. Qed.
+
+Theorem C14_lossy_length : forall bs, (length (lossy bs) <= 3 * length bs)%nat.
+Proof. exact lossy_length. Qed.
+
+(** THE STRING VARIANTS AS A LAYER OVER [Db.step] (Strings.v: [sstep] - the function the runner executes for getstr / delstr /
+    bulkgetstr / bulkdelstr - runs the byte call and maps [lossy] over the returned values): they change the world exactly as the
+    byte variants, return [post] of the byte variants' results, and inside the domain of the world-level refinement theorem
+    return [lossy] of what the ideal maps hold. *)
+From Aby Require Import Db Db_proofs World_refine Strings Strings_proofs.
+Theorem C14_string_variants_change_the_world_as_the_byte_variants : forall ops w,
+  sworld_run w ops = world_run w (map plain ops).
+Proof. exact string_variants_same_world. Qed.
+
+Theorem C14_string_variants_return_lossy_of_the_byte_variants : forall ops w,
+  srun_outs w ops = zip_post ops (run_outs w (map plain ops)).
+Proof. exact string_variants_outputs. Qed.
+
+Theorem C14_string_history_refines_ideal_maps : forall w iw ops,
+  wrep w iw -> ops_ok w (map plain ops) ->
+  wrep (sworld_run w ops) (irun w iw (map plain ops)).1 /\
+  Forall2 (fun '(o, r) ir => sagrees o r ir) (zip ops (srun_outs w ops)) (irun w iw (map plain ops)).2.
+Proof. exact string_history_refines. Qed.
+
+Theorem C14_stored_strings_come_back_unchanged : forall s, Forall scalar s ->
+  str_out (ROpt (Some (encode s))) = ROpt (Some (encode s)) /\
+  (forall l, In (Some (encode s)) l -> In (Some (encode s)) (match str_out (RVec l) with RVec l' => l' | _ => [] end)).
+Proof. exact string_value_round_trip. Qed.
+
+Example C14_nonvacuous_strings := (Utf8_proofs.wf_example, Utf8_proofs.scalar_example, Utf8_proofs.encode_example, Strings_proofs.str_out_examples).
